@@ -30,29 +30,36 @@ _h('idx_vec_sv', 'std::vector / static_vector; ' + IDX)
 _h('idx_arr_sv', 'std::array<size_t,N> (N per-query constant 1..4) / static_vector; ' + IDX, quick=NS)
 _h('idx_arr_vec', 'std::array<size_t,N> (N per-query constant 1..4) / std::vector; ' + IDX, quick=NS)
 _h('idx_arr_arr', 'std::array<size_t,N> pairs of the same N (different N does not compile); values symbolic', quick=NS, dbg_kf=False)
-_h('idx_svi_sv', 'static_vector<int,4> / static_vector<size_t,4>; ' + IDX)
+_h('idx_svi_sv', 'static_vector<int,4> / static_vector<size_t,4>; ' + IDX, kf='KF_C18_EQ_MIXED_SIGN_TRUNCATES')
 _h('num', 'size_t/size_t and int/unsigned scalars, all values', dbg_kf=False)
-_h('close_num', 'float/float, double/double, float/double scalars and eps: every bit pattern (NaN, inf, denormals included)', dbg_kf=False)
+FL = 'every bit pattern (NaN, infinities, denormals, signed zeros included) for both operands and eps'
+_h('close_f32', 'float/float scalars; ' + FL, dbg_kf=False, backend='cadical')
+_h('close_lemma', 'symmetry of the reference |a-b| < eps itself (IEEE-754), float and double; ' + FL, dbg=False, backend='cadical', quick=[{'LEMMA': 32}, {'LEMMA': 64}], gate=False)
+_h('close_f64', 'double/double scalars; ' + FL, dbg_kf=False, backend='cadical', kf='KF_C18_CLOSE_DOUBLE_ROUNDS_TO_FLOAT')
+_h('close_f32_f64', 'float/double scalars; ' + FL, dbg_kf=False, backend='cadical', kf='KF_C18_CLOSE_DOUBLE_ROUNDS_TO_FLOAT')
 _h('close_uint', 'unsigned/unsigned scalars, double eps: all values', dbg_kf=False, kf='KF_C18_CLOSE_UNSIGNED_WRAPS')
 _h('close_int', 'int/int scalars, double eps: all values', dbg_kf=False, kf='KF_C18_CLOSE_INT_OVERFLOW')
 ND = 'extents 0..MAXE symbolic on both sides (same shape, same size with another shape, other sizes), all element data symbolic; both call orders'
+DIMS = [{'NA': a, 'NB': b} for a in (1, 2, 3) for b in (1, 2, 3) if a <= b]
 _h('nd_h2_h2', 'hybrid 2-d (capacity 9) pairs; ' + ND, unwind=12, dbg_kf=False)
-_h('nd_dimdiff', 'hybrid 1-d vs 2-d and 2-d vs 3-d; ' + ND + ' (only the compiling order)', unwind=12, dbg=False)
+_h('nd_dimdiff', 'hybrid 2-d vs 1-d and 2-d vs 3-d; ' + ND, unwind=12)
 _h('nd_f23_h2', 'fixed_ndarray<unsigned,2,3> vs hybrid 2-d; ' + ND, unwind=12, dbg_kf=False)
-_h('nd_b_b', 'ndarray_t<static_vector<unsigned,9>, static_vector<size_t,3>> pairs, dim 1..3 symbolic on both sides, product <= 9; ' + ND, unwind=12)
-_h('nd_d_d', 'ndarray_t<std::vector<unsigned>, std::vector<size_t>> pairs, dim 1..3 symbolic on both sides, product <= 9; ' + ND, unwind=12,
-   quick=[{'MAXE': 2}], thorough=[{'MAXE': 3}])
-_h('nd_d_h2', 'dynamic (dim 1..3) vs hybrid 2-d; ' + ND, unwind=12, quick=[{'MAXE': 2}], thorough=[{'MAXE': 3}])
-_h('close_h2_h2', 'isclose on hybrid float 2-d pairs, eps and all data any bit pattern; ' + ND, unwind=12, quick=[{'MAXE': 2}], thorough=[{'MAXE': 3}])
-_h('close_b_b', 'isclose on bounded-dim float arrays, dim 1..3; ' + ND, unwind=12, quick=[{'MAXE': 2}], thorough=[{'MAXE': 3}])
+_h('nd_b_b', 'ndarray_t<static_vector<unsigned,9>, static_vector<size_t,3>> pairs, dims (NA,NB) per-query constants 1..3 (every unordered pair), product <= CAPB; ' + ND, unwind=12,
+   quick=[dict(d, CAPB=6) for d in DIMS], thorough=[dict(d, CAPB=9) for d in DIMS])
+_h('nd_d_d', 'ndarray_t<std::vector<unsigned>, std::vector<size_t>> pairs, dims (NA,NB) per-query constants 1..3, product <= CAPB; ' + ND, unwind=12,
+   quick=[dict(d, CAPB=4, MAXE=2) for d in DIMS], thorough=[dict(d, CAPB=6) for d in DIMS])
+_h('nd_d_h2', 'dynamic (dim NA per-query constant 1..3) vs hybrid 2-d; ' + ND, unwind=12, quick=[{'NA': a, 'CAPB': 4, 'MAXE': 2} for a in (1, 2, 3)], thorough=[{'NA': a, 'CAPB': 6} for a in (1, 2, 3)])
+_h('close_h2_h2', 'isclose on hybrid float 2-d pairs, eps and all data any bit pattern; ' + ND, unwind=12, quick=[{'MAXE': 2}], thorough=[{'MAXE': 3}], backend='cadical')
+_h('close_b_b', 'isclose on bounded-dim float arrays, dims (NA,NB) per-query constants; ' + ND, unwind=12, quick=[dict(d, CAPB=4, MAXE=2) for d in DIMS], thorough=[dict(d, CAPB=6) for d in DIMS], backend='cadical')
 _h('maybe', 'optional<static_vector> and utl::maybe<static_vector> pairs: has_value flags, lengths 0..4, values symbolic')
 _h('maybe_value', 'optional<static_vector> against a plain value and against Nothing; None/None')
-_h('close_maybe', 'isclose optional<float> pairs / against a value; every bit pattern', dbg_kf=False)
+_h('close_maybe', 'isclose optional<float> pairs / against a value; every bit pattern', dbg_kf=False, backend='cadical')
 _h('either', 'variant<size_t, static_vector> pairs: active alternative, lengths, values symbolic')
 _h('either_value', 'variant<size_t, static_vector> against a scalar / an index array')
-_h('close_either', 'isclose variant<float, hybrid 1-d float> pairs (same shape), extents 0..MAXE', unwind=12, dbg_kf=False)
-_h('close_either_value', 'isclose variant<float, hybrid 1-d float> against a float scalar', unwind=12, dbg_kf=False, kf='KF_C18_CLOSE_EITHER_DROPS_EPS')
-_h('tuple', 'tuple<size_t x3> pairs, tuple/array, isclose tuple<float,float>', dbg_kf=False)
+_h('close_either', 'isclose variant<float, hybrid 1-d float> pairs (same shape), extents 0..MAXE', unwind=12, dbg_kf=False, backend='cadical')
+_h('close_either_value', 'isclose variant<float, hybrid 1-d float> against a float scalar', unwind=12, dbg_kf=False, kf='KF_C18_CLOSE_EITHER_DROPS_EPS', backend='cadical')
+_h('tuple', 'tuple<size_t x3> pairs, tuple/array', dbg_kf=False)
+_h('close_tuple', 'isclose tuple<float,float> pairs', dbg_kf=False, backend='cadical')
 _h('tuple_mixed', 'tuple<size_t, static_vector, optional<static_vector>> pairs, all members symbolic')
 
 PENDING_FINDINGS = []
